@@ -153,7 +153,8 @@ def judge(h, ops):
     """run the real code and the Lean monitor on one op list -> (impl lines, list of (index, BAD text), crashed?)"""
     impl, rc, err = vlib.run_lines([str(h)], ops)
     if rc != 0 or len(impl) != len(ops):
-        return impl, [], "rc=%d %s" % (rc, err[-1200:])
+        head = [l for l in err.splitlines() if "ERROR:" in l or "runtime error" in l][:2]
+        return impl, [], "rc=%d %s %s" % (rc, " | ".join(head)[:600], err[-300:])
     ml = mon_lines(ops, impl)
     mon, rc2, err2 = vlib.run_model("C19", ml)
     idx = [i for i, l in enumerate(ml) if not l.startswith("#")]
@@ -267,13 +268,18 @@ def run(res):
 
     impl, rc, err = vlib.run_lines([str(h)], ops)
     if rc != 0 or len(impl) != len(ops):
-        # crash / sanitizer: find the history
+        # crash / sanitizer: find the history (stdout of an aborted harness is lost, so search by groups)
         bad_h = None
-        for hh in hists[max(0, len(impl) and (len([s for s in starts if s <= len(impl)]) - 2)):]:
-            _, _, crashed = judge(h, hh)
-            if crashed:
-                bad_h = hh
-                break
+        for g in range(0, len(hists), 200):
+            grp = hists[g:g + 200]
+            _, rcg, _ = vlib.run_lines([str(h)], [o for hh in grp for o in hh])
+            if rcg != 0:
+                for hh in grp:
+                    if judge(h, hh)[2]:
+                        bad_h = hh
+                        break
+                if bad_h is not None:
+                    break
         if bad_h is None:
             res.violation("harness aborted rc=%d but no single history reproduces it: %s" % (rc, err[-1500:]), {"stderr": err[-3000:]},
                           found_input=False, key="harness-abort")
